@@ -183,12 +183,12 @@ def run_ops(ctx, desc, cumsum):
               f"{op}(axis={axis2}, {kw2}) on a Grid with default_shifts={{{a!r}: {{{frm!r}: {t!r}}}}} [{edit}]", edit, True)
         return
     elif edit == "boundary-unknown-scalar":
-        kw2["boundary"] = ["bogus", "wrap", "Fill", "constant", "edge"][pick % 5]
+        kw2["boundary"] = BADWORDS[pick % len(BADWORDS)]
         consulted = any(needs_pad(x) for x in opax)
     elif edit == "boundary-unknown-operated":
         b = kw.get("boundary")
         m = dict(b) if isinstance(b, dict) else ({x: b for x in axn} if b is not None else {})
-        m[a] = "bogus"
+        m[a] = BADWORDS[pick % len(BADWORDS)]
         kw2["boundary"] = m
         consulted = needs_pad(a)
     elif edit == "boundary-unknown-other":
@@ -213,6 +213,11 @@ def run_ops(ctx, desc, cumsum):
     res = call_outcome(lambda: getattr(g, op)(da2, axis_arg, **kw2))
     ckey = ("cumsum" if cumsum else "ops", edit, consulted, op, len(opax))
     judge(ctx, desc, ckey, res, f"{op}(axis={axis_arg}, {kw2}) [{edit}, shift {frm}->{to_eff[a]}, consulted={consulted}]", edit, consulted)
+
+
+# words that are no boundary rule: misspellings, other libraries' words, and the empty word (falsy: a completion of options
+# written `given or default` would drop it unseen)
+BADWORDS = ["bogus", "wrap", "Fill", "constant", "edge", "", "None"]
 
 
 def judge(ctx, desc, ckey, res, what, edit, consulted):
@@ -293,7 +298,7 @@ def run_ufunc(ctx, desc):
     elif edit == "unknown-axis":
         axis2 = [tuple("Qx_unknown" if x == axis[k][0] else x for x in t) for t in axis]
     elif edit == "boundary-unknown-scalar":
-        kw["boundary"] = "bogus"
+        kw["boundary"] = BADWORDS[pick % len(BADWORDS)]
         consulted = any(max(w) > 0 for w in bw.values())
     elif edit == "position-lacking":
         d0, p0 = ins[k][0]
